@@ -5,7 +5,7 @@ sys.path.insert(0, os.path.dirname(__file__))
 import sqlgen, sqlfam, sqlcheck
 for fam in sys.argv[1:]:
     f = sqlfam.FAMILIES[fam]
-    g = sqlgen.Gen(f["seed"], f["opts"])
+    g = getattr(sqlgen, f.get("gen", "Gen"))(f["seed"], f["opts"])
     cases = [g.case(f"{fam}-{i}") for i in range(f["n"])]
     sqlcheck.save_corpus(fam, cases)
     print(fam, len(cases))
